@@ -2943,7 +2943,8 @@ class TensorDict(TensorDictBase):
                 )
             else:
                 futures.append(executor.submit(_save_metadata, dest, prefix, metadata))
-        dest._is_locked = True
+        # the lock (flags and lock graph) is registered from the root by the public entry
+        # points once the whole tree is converted (see base._lock_graph)
         dest._memmap_prefix = prefix
         return dest
 
